@@ -10,9 +10,13 @@ args = sys.argv[1:]
 N = 4
 if args[:1] == ["-j"]:
     N = int(args[1]); args = args[2:]
-RES = os.path.join(ROOT, "seeded", "RESULTS.json")
+HARMLESS = "--harmless" in args
+if HARMLESS:
+    args.remove("--harmless")
+SEEDDIR = "seeded_harmless" if HARMLESS else "seeded"
+RES = os.path.join(ROOT, SEEDDIR, "RESULTS.json")
 res = json.load(open(RES)) if os.path.exists(RES) else {}
-ids = [s for s in sorted(os.listdir(os.path.join(ROOT, "seeded"))) if os.path.isfile(os.path.join(ROOT, "seeded", s, "patch.diff")) and (not args or s in args)]
+ids = [s for s in sorted(os.listdir(os.path.join(ROOT, SEEDDIR))) if os.path.isfile(os.path.join(ROOT, SEEDDIR, s, "patch.diff")) and (not args or s in args)]
 wts = [f"/tmp/rs_wt{i}" for i in range(N)]
 for wt in wts:
     subprocess.run(["git", "-C", "/repo", "worktree", "remove", "--force", wt], capture_output=True)
@@ -27,7 +31,7 @@ def one(sid):
     wt = free.get()
     try:
         pid = sid.split("_")[0]
-        patch = os.path.join(ROOT, "seeded", sid, "patch.diff")
+        patch = os.path.join(ROOT, SEEDDIR, sid, "patch.diff")
         subprocess.run(["git", "-C", wt, "checkout", "-q", "--", "."]); subprocess.run(["git", "-C", wt, "clean", "-fdq"])
         if subprocess.run(["git", "-C", wt, "apply", patch], capture_output=True).returncode != 0:
             return sid, dict(property=pid, applied=False)
@@ -55,4 +59,8 @@ finally:
         subprocess.run(["git", "-C", "/repo", "worktree", "remove", "--force", wt], capture_output=True)
 json.dump(res, open(RES, "w"), indent=1, sort_keys=True)
 sel = {k: v for k, v in res.items() if k in ids}
-print(f"detected {sum(1 for v in sel.values() if v.get('exit') == 1)} of {len(sel)}")
+if HARMLESS:
+    print(f"no alarm on {sum(1 for v in sel.values() if v.get('exit') in (0, 2))} of {len(sel)} harmless changes "
+          f"(exit 0: {sum(1 for v in sel.values() if v.get('exit') == 0)}, undecided exit 2: {sum(1 for v in sel.values() if v.get('exit') == 2)})")
+else:
+    print(f"detected {sum(1 for v in sel.values() if v.get('exit') == 1)} of {len(sel)}")
